@@ -232,11 +232,11 @@ def run(ctx):
             "not self.start_time(operation, machine_id) of the same request",
             loc=dispatch.loc(c),
         )
-    _start_time_shape(ctx, start_time)
+    ctx.attempt(_start_time_shape, ctx, start_time)
     dispatch = dispatch_raw
 
     # ---------------------------------------------------------------- R02.c
-    _replay_sites(ctx, dispatch)
+    ctx.attempt(_replay_sites, ctx, dispatch)
 
 
 def _check_tracking_write(ev, attr, idx_attr, op):
